@@ -454,6 +454,10 @@ func (fr *Frame) applyContract(con *Contract, tgt callTarget, args [][]string, a
 	for _, c := range con.Ensures {
 		g, err := env.evalBool(c.E)
 		if err != nil {
+			if strings.Contains(err.Error(), "unresolved name") {
+				// a clause about the callee's own locals (checked when the callee is verified): not usable here
+				continue
+			}
 			fr.contractError(fmt.Sprintf("ensures of %s: %v", short, err))
 			continue
 		}
@@ -466,6 +470,7 @@ func (fr *Frame) applyContract(con *Contract, tgt callTarget, args [][]string, a
 				fr.contractError(fmt.Sprintf("constraint of %s: %v", short, err))
 				continue
 			}
+			vc.assumptions["assumed effect clause of "+short+" (not checked against its body): "+c.Text] = true
 			vc.assert(sImp(r, g))
 		}
 	} else {
